@@ -25,6 +25,8 @@ type c02Case struct {
 	// Prefix: words decoded on the SAME fresh parser before Word (their outcome is not judged
 	// here): a decode must not depend on what the parser saw before
 	Prefix []uint32 `json:"prefix,omitempty"`
+	// Args: how the extension list is spelled when the (fresh) parser is built: rev | dup | revdup
+	Args string `json:"args,omitempty"`
 }
 
 // detailsText returns Details.String(), or a marker if it panics.
@@ -47,6 +49,22 @@ func showEffects(in model.Instruction) string {
 
 // c02Word checks one word; ps may be nil (replay).
 func c02Word(ps *riscv.Parser, c c02Case) (*eng.Fail, bool) {
+	if c.Args != "" {
+		var p riscv.Parser
+		if pp, stack := eng.Catch(func() { p = rvx.ParserArgs(c.Cfg, c.Args) }); pp != nil {
+			return &eng.Fail{Sig: "NewParser panic " + eng.PanicSite(stack), What: fmt.Sprintf("NewParser for %s with the extension list spelled %q panics: %v", c.Cfg, c.Args, pp), Case: c}, false
+		}
+		cc := c
+		cc.Args = ""
+		f, acc := c02Word(&p, cc)
+		if f != nil {
+			f.Sig += " (extension list " + c.Args + ")"
+			f.What += fmt.Sprintf(" — parser built with the extension list spelled %q", c.Args)
+			c.Hex = fmt.Sprintf("%08x", c.Word)
+			f.Case = c
+		}
+		return f, acc
+	}
 	if len(c.Prefix) > 0 {
 		p := rvx.Parser(c.Cfg)
 		ps = &p
@@ -122,7 +140,7 @@ func c02Word(ps *riscv.Parser, c c02Case) (*eng.Fail, bool) {
 
 func init() {
 	checks["C02"] = eng.Check{
-		Rule:        "quick: the structured quotient of the word space — all 2^22 combinations of bits[31:20] x funct3 x opcode[6:0] with rd=rs1=0, and for rv32ima/rv64ima additionally each of them with every single rd/rs1 bit set and with rd=rs1=31 — in all 8 configurations; thorough: ALL 2^32 words x 8 configurations. Acceptance and mnemonic compared with a decoder table written from the specification listings. History independence: every instruction of the configuration (3 fillings of its operand bits) and 8 undefined words decoded on a fresh parser right after each of 12 other words (thorough: after every ordered pair of them), rejected and accepted ones of every matcher group. Inputs of length 0..3 and trailing bytes {00, ffffffff, the word again} on every accepted quotient word of two configurations. Non-trivial = accepted word.",
+		Rule:        "quick: the structured quotient of the word space — all 2^22 combinations of bits[31:20] x funct3 x opcode[6:0] with rd=rs1=0, and for rv32ima/rv64ima additionally each of them with every single rd/rs1 bit set and with rd=rs1=31 — in all 8 configurations; thorough: ALL 2^32 words x 8 configurations. Acceptance and mnemonic compared with a decoder table written from the specification listings. History independence: every instruction of the configuration (3 fillings of its operand bits) and 8 undefined words decoded on a fresh parser right after each of 12 other words (thorough: after every ordered pair of them), rejected and accepted ones of every matcher group; the same words on parsers built with the extension list in descending order. Inputs of length 0..3 and trailing bytes {00, ffffffff, the word again} on every accepted quotient word of two configurations. Non-trivial = accepted word.",
 		Assumptions: []string{"reference: harness/rvref table (DESIGN.md appendix A): base I + Zicsr + M + A, fence with fm=rd=rs1=0, fence.i/ecall/ebreak exact words, reserved shamt bits zero, lr with rs2=0, aq/rl free"},
 		Run: func(r *eng.Run) {
 			cfgs := rvx.AllCfgs()
@@ -229,6 +247,24 @@ func init() {
 						}
 					}
 				})
+				// the same configuration requested with its extension list in descending order: every
+				// instruction and the undefined words again
+				for _, sp := range []string{"rev"} { // (repeating an extension is documented as undefined)
+					if !cfg.M || !cfg.A {
+						break
+					}
+					for _, t := range targets {
+						f, acc := c02Word(nil, c02Case{Cfg: cfg, Word: t, Args: sp})
+						r.Eval(1)
+						if acc {
+							r.Nontrivial(1)
+						}
+						if f != nil {
+							r.Report(f)
+							r.Outcome(f.Sig)
+						}
+					}
+				}
 				// short inputs
 				for l := 0; l < 4; l++ {
 					for _, w := range []uint32{0x00000013, 0xffffffff, 0x00000000, 0x00000073} {
